@@ -30,7 +30,7 @@ func init() {
 			"single-valued group and field tokens, all numeric strings finite",
 			"not-exists counts compared per group summed over time bins (statement does not place them in a time bin)",
 		},
-		Batches: tiered(96, 800),
+		Batches: tiered(384, 4800),
 		Run:     runC06,
 		Timeout: timeoutFor(8*time.Minute, 40*time.Minute),
 	})
